@@ -1,8 +1,8 @@
 (* C05/DeProofs.v — the model of zvariant's GVariant deserializer never panics, on any input, except
    (a) in the signature parser's recursion (native stack, modelled by PStack) and
-   (b) where the reader of a tuple member's framing offset panics — which read_last_offset_from_buffer does on a
-       window shorter than the offset width (the struct_offset_underflow finding), and which the checked reader
-       (the proposed repair) never does.
+   (b) where the reader of a tuple member's framing offset panics — which read_last_offset_from_buffer did on a
+       window shorter than the offset width (the former struct_offset_underflow finding), and which the checked
+       reader of the code as it is (commit b5246470) never does.
    Every other slice / index / subtraction / unwrap of the decode path is shown to be guarded. *)
 From ZV Require Import Base.Bytes Base.Res Base.Sig Base.SigParse Base.Utf8 DBus.Val DBus.Spec DBus.Ser DBus.De DBus.SerFacts
   C05.Val C05.Spec C05.Model C05.DeModel C05.Facts.
@@ -68,7 +68,9 @@ Proof.
   apply for_encoded_ge in H; [|assumption]. destruct (N.ltb_spec (b - a) w); [lia|discriminate].
 Qed.
 Lemma read_last_checked_nopanic st a b w p : read_last_checked st a b w <> Panic p.
-Proof. unfold read_last_checked. destruct (_ =? 0); [discriminate|]. destruct (_ <? _); discriminate. Qed.
+Proof.
+  unfold read_last_checked, read_last. destruct (_ =? 0); cbn [negb andb]; [discriminate|]. destruct (_ <? _); discriminate.
+Qed.
 
 (* from_encoded_array: never panics; the offsets it returns all lie inside the data part *)
 Section OffsLoop.
@@ -533,17 +535,17 @@ Section NP.
 End NP.
 
 (* ---------- instances ---------- *)
-(* with the checked reader (the proposed repair) the decoder never panics, on any input *)
-Theorem gde_repaired_nopanic fuel st p : wfst st -> gde_repaired fuel st = Panic p -> p = PStack /\ stack_limit < r_len st.
+(* the code as it is (after commit b5246470): the only panic left is the signature parser's recursion *)
+Theorem gde_panics fuel st p : wfst st -> gde fuel st = Panic p -> p = PStack /\ stack_limit < r_len st.
 Proof.
   intros Hwf H. destruct (gde_gen_np read_last_checked (fun _ _ => False)) with (fuel := fuel) (st := st) (p := p) as [Hp|(st' & _ & [])];
     try assumption.
   intros st0 a b w p0 _ Hx. exfalso. eapply read_last_checked_nopanic; eassumption.
 Qed.
 
-(* the code as it is: every panic other than the parser's stack is the subtraction in read_last_offset_from_buffer,
-   reached on a window of at least 256 bytes *)
-Theorem gde_panics fuel st p : wfst st -> gde fuel st = Panic p ->
+(* the code before that commit: every panic other than the parser's stack was the subtraction in
+   read_last_offset_from_buffer, reached on a window of at least 256 bytes *)
+Theorem gde_before_fix_panics fuel st p : wfst st -> gde_before_fix fuel st = Panic p ->
   (p = PStack /\ stack_limit < r_len st) \/ (p = PArith /\ 256 <= r_len st).
 Proof.
   intros Hwf H.
@@ -556,11 +558,8 @@ Proof.
   - right. split; [assumption|lia].
 Qed.
 
-Corollary gde_small_nopanic fuel st p : wfst st -> r_len st < 256 -> gde fuel st <> Panic p.
-Proof.
-  intros Hwf Hs H. destruct (gde_panics fuel st p Hwf H) as [[_ Hge]|[_ Hge]]; [|lia].
-  unfold stack_limit in Hge. lia.
-Qed.
+Corollary gde_small_nopanic fuel st p : wfst st -> r_len st <= stack_limit -> gde fuel st <> Panic p.
+Proof. intros Hwf Hs H. destruct (gde_panics fuel st p Hwf H) as [_ Hge]. lia. Qed.
 
 (* ---------- the entry points ---------- *)
 Lemma wfst_init e pos g b fds : len b < 18446744073709551616 -> wfst (ginit_dst e pos g b fds).
@@ -572,7 +571,7 @@ Lemma panic_of_bind {A B} (r : res cerr A) (f : A -> res cerr B) p :
 Proof. intros Hf H. apply bind_panic in H as [H|(a & _ & H)]; [assumption|]. exfalso. eapply Hf; eassumption. Qed.
 
 Lemma gde_init_panics e pos g b fds p n : len b < 18446744073709551616 -> gde n (ginit_dst e pos g b fds) = Panic p ->
-  (p = PStack /\ stack_limit < len b) \/ (p = PArith /\ 256 <= len b).
+  p = PStack /\ stack_limit < len b.
 Proof. intros Hb H0. pose proof (gde_panics n (ginit_dst e pos g b fds) p (wfst_init e pos g b fds Hb) H0) as H1. exact H1. Qed.
 
 Lemma value_top_panic e pos b fds p : gde_value_top e pos b fds = Panic p -> gde gde_fuel (ginit_dst e pos SVariant b fds) = Panic p.
@@ -595,7 +594,7 @@ Qed.
 
 Theorem gde_tops_panics e pos g b fds p : len b < 18446744073709551616 ->
   gde_value_top e pos b fds = Panic p \/ gde_struct_top e pos g b fds = Panic p \/ gde_typed_top e pos g b fds = Panic p ->
-  (p = PStack /\ stack_limit < len b) \/ (p = PArith /\ 256 <= len b).
+  p = PStack /\ stack_limit < len b.
 Proof.
   intros Hb [H|[H|H]].
   - apply value_top_panic in H. exact (gde_init_panics _ _ _ _ _ _ _ Hb H).
@@ -603,22 +602,10 @@ Proof.
   - apply typed_top_panic in H. exact (gde_init_panics _ _ _ _ _ _ _ Hb H).
 Qed.
 
-Theorem gde_tops_small_nopanic e pos g b fds p : len b < 256 ->
+Theorem gde_tops_small_nopanic e pos g b fds p : len b <= stack_limit ->
   gde_value_top e pos b fds <> Panic p /\ gde_struct_top e pos g b fds <> Panic p /\ gde_typed_top e pos g b fds <> Panic p.
 Proof.
-  intros Hb. assert (Hb' : len b < 18446744073709551616) by lia.
-  assert (Hno : ~ ((p = PStack /\ stack_limit < len b) \/ (p = PArith /\ 256 <= len b))).
-  { unfold stack_limit. intros [[_ Hx]|[_ Hx]]; lia. }
+  intros Hb. assert (Hb' : len b < 18446744073709551616) by (unfold stack_limit in Hb; lia).
+  assert (Hno : ~ (p = PStack /\ stack_limit < len b)) by (intros [_ Hx]; lia).
   repeat split; intros Hx; apply Hno; apply (gde_tops_panics e pos g b fds p Hb'); tauto.
-Qed.
-
-(* with the repaired reader, for any recursion fuel *)
-Definition gde_repaired_top (fuel : nat) (e : endian) (pos : N) (g : sig) (b : bytes) (fds : list N) : res cerr (gval * N) :=
-  let* (v, st) := gde_repaired fuel (ginit_dst e pos g b fds) in Ok (v, r_pos st).
-Theorem gde_repaired_top_nopanic fuel e pos g b fds p : len b < 18446744073709551616 ->
-  gde_repaired_top fuel e pos g b fds = Panic p -> p = PStack /\ stack_limit < len b.
-Proof.
-  intros Hb H. unfold gde_repaired_top in H.
-  apply (panic_of_bind (gde_repaired fuel (ginit_dst e pos g b fds))) in H; [|intros [v st] q; discriminate].
-  pose proof (gde_repaired_nopanic fuel (ginit_dst e pos g b fds) p (wfst_init e pos g b fds Hb) H) as H1. exact H1.
 Qed.
